@@ -5,7 +5,11 @@ use crate::docs::{self, DocParams, MutKind};
 use crate::gen::{self, SIGMA};
 use crate::obs::{parse_slice, Cfg, MaxSize, Obs, Term};
 use crate::refmodel::{decode_header, hex, ref_encode, NItem};
-use crate::spec::{v_refspec, RefSpec, Ty, PP, ID_TAG, ID_VOID, V};
+use crate::spec::{v_refspec, w_refspec, RefSpec, SpecT, Ty, PP, ID_TAG, ID_VOID, V, W};
+
+/// role-colliding bytes for W: every 1-byte id of W (each is also a 1-byte size), first bytes of the 2-/3-byte ids,
+/// the global ids, small sizes, the unknown-size marker, an invalid first byte
+pub const SIGMA_W: [u8; 18] = [0x00, 0x40, 0x20, 0x80, 0x81, 0x82, 0x83, 0x91, 0x92, 0x93, 0x94, 0x95, 0x96, 0xa1, 0xa4, 0xa7, 0xec, 0xff];
 
 struct Open {
     id: u64,
@@ -29,7 +33,7 @@ pub fn nesting_check(input: &[u8], obs: &Obs, rs: &RefSpec) -> Result<(), (Strin
             NItem::Raw(id, _) => return Err(("raw-tag-in-strict-mode".into(), format!("item #{} raw tag {:x}", n, id))),
             NItem::Full(..) => return Err(("machinery/full-item-without-buffering".into(), format!("item #{}", n))),
             NItem::End(id) => {
-                if !determined {
+                if !determined && chain.is_empty() {
                     return Err(("end/before-any-start".into(), format!("item #{} End({:x}) before the position in the document is known", n, id)));
                 }
                 match chain.pop() {
@@ -55,12 +59,15 @@ pub fn nesting_check(input: &[u8], obs: &Obs, rs: &RefSpec) -> Result<(), (Strin
                 };
                 let global = rs.is_global(*id);
                 if !determined && !global {
-                    // implied ancestors of the first non-global element
+                    // implied ancestors of the first non-global element, below any global masters that are already open
+                    let mut implied: Vec<Open> = Vec::new();
                     for p in rs.path(*id) {
                         if let PP::Id(a) = p {
-                            chain.push(Open { id: *a, start: None, range: None });
+                            implied.push(Open { id: *a, start: None, range: None });
                         }
                     }
+                    implied.append(&mut chain);
+                    chain = implied;
                     determined = true;
                 }
                 if determined {
@@ -133,12 +140,12 @@ pub fn nesting_check(input: &[u8], obs: &Obs, rs: &RefSpec) -> Result<(), (Strin
     }
 }
 
-fn run_one(ctx: &mut Ctx, rs: &RefSpec, input: &[u8], cfg: &Cfg, origin: &str) {
+fn run_one<T: SpecT>(ctx: &mut Ctx, rs: &RefSpec, input: &[u8], cfg: &Cfg, origin: &str) {
     let d = || format!("{} input={}", origin, hex(input));
     if !ctx.enter(&d) {
         return;
     }
-    let obs = parse_slice::<V>(input, cfg);
+    let obs = parse_slice::<T>(input, cfg);
     ctx.transitions += obs.items.len() as u64 + 1;
     // non-trivial: at least two levels open at some point
     let mut depth = 0i32;
@@ -172,28 +179,30 @@ pub fn run(ctx: &mut Ctx) {
     crate::spec::assert_spec_matches::<V>(&rs);
     let n = ctx.tier.pick(6, 7);
     let doc_nodes = ctx.tier.pick(4, 5);
-    ctx.meta("rule", "cases: byte streams parsed by the strict iterator from a slice; streams = every string over Σ up to length n, every document of T∘E (all known/unknown-size mixes, deep spines) and every single mutation (byte replaced by each Σ byte, byte deleted, truncation, every mid-document suffix at an element boundary), and documents longer than the 64 KiB buffer with long headers around the buffer boundary, whole and cut near the boundary. Oracle: NestingChecker replays the Ok items: End matches innermost open Start or the next implied ancestor; ids known; ref_path_match(path, open chain) once the first non-global element fixed the position; element extents (header decoded by RefCodec at the reported offset) inside every enclosing known-size master; known-size End neither late nor early (early only at end of input); all masters closed at a clean end. Non-trivial: >= 2 levels open at some point.");
-    ctx.meta("bounds", &format!("Σ* length <= {}; documents <= {} elements (+ spines), all single mutations", n, doc_nodes));
+    ctx.meta("rule", "cases: byte streams parsed by the strict iterator from a slice; streams = every string over Σ up to length n, every document of T∘E (all known/unknown-size mixes, deep spines) and every single mutation (byte replaced by each Σ byte, byte deleted, truncation, every mid-document suffix at an element boundary), and documents longer than the 64 KiB buffer with long headers around the buffer boundary, whole and cut near the boundary; and over the second derived specification W (placeholder paths, a global master, a bounded global leaf): every string over Σ_W up to length n-1 and every document with all single mutations. Oracle: NestingChecker replays the Ok items: End matches innermost open Start or the next implied ancestor; ids known; ref_path_match(path, open chain) once the first non-global element fixed the position; element extents (header decoded by RefCodec at the reported offset) inside every enclosing known-size master; known-size End neither late nor early (early only at end of input); all masters closed at a clean end. Non-trivial: >= 2 levels open at some point.");
+    ctx.meta("bounds", &format!("Σ* length <= {}; documents <= {} elements (+ spines), all single mutations; W: Σ_W* length <= {}, documents <= {} elements", n, doc_nodes, ctx.tier.pick(5, 6), ctx.tier.pick(4, 5)));
     ctx.meta("assumptions", "64 KiB tag-size limit on the mutation corpus (mutated size fields otherwise allocate gigabytes legitimately)");
     ctx.expect_nonzero("mid_document_starts");
     ctx.expect_nonzero("buffer_boundary_docs");
+    ctx.expect_nonzero("w_strings");
+    ctx.expect_nonzero("w_docs");
     let cfg = Cfg::strict();
     let mut mcfg = Cfg::strict();
     mcfg.max_size = MaxSize::Limit(1 << 16);
     let (shard, nshards) = (ctx.shard, ctx.nshards);
     gen::strings(&SIGMA, n, shard, nshards, &mut |s| {
-        run_one(ctx, &rs, s, &cfg, "sigma");
+        run_one::<V>(ctx, &rs, s, &cfg, "sigma");
         !ctx.should_stop()
     });
     for (i, doc) in docs::buffer_boundary_docs(ctx.tier.pick(24, 64)).into_iter().enumerate() {
         if ctx.mine(i as u64) {
             let (bytes, _) = ref_encode(&doc);
             ctx.count("buffer_boundary_docs", 1);
-            run_one(ctx, &rs, &bytes, &cfg, "buffer-boundary-doc");
+            run_one::<V>(ctx, &rs, &bytes, &cfg, "buffer-boundary-doc");
             // and cut inside / right after the long headers
             for cut in [bytes.len() - 1, bytes.len() - 9, 65536, 65537, 65540, 65550] {
                 if cut < bytes.len() {
-                    run_one(ctx, &rs, &bytes[..cut], &cfg, "buffer-boundary-doc-truncated");
+                    run_one::<V>(ctx, &rs, &bytes[..cut], &cfg, "buffer-boundary-doc-truncated");
                 }
             }
         }
@@ -202,10 +211,32 @@ pub fn run(ctx: &mut Ctx) {
     let kinds = [MutKind::Replace, MutKind::Delete, MutKind::Truncate, MutKind::Suffix];
     docs::for_each_doc(ctx, &rs, &p, &mut |ctx, doc| {
         let (bytes, lay) = ref_encode(doc);
-        run_one(ctx, &rs, &bytes, &cfg, "doc");
+        run_one::<V>(ctx, &rs, &bytes, &cfg, "doc");
         let bounds: Vec<usize> = lay.iter().map(|l| l.tag_start).collect();
         docs::for_each_mutation(&bytes, &bounds, &SIGMA, &kinds, &mut |m, _k, _pos| {
-            run_one(ctx, &rs, m, &mcfg, "mut");
+            run_one::<V>(ctx, &rs, m, &mcfg, "mut");
+            !ctx.should_stop()
+        });
+        !ctx.should_stop()
+    });
+    // the second macro-derived specification W: placeholders in trailing and intermediate position, a global master
+    // that may nest in anything (once), a bounded global leaf
+    let w = w_refspec();
+    crate::spec::assert_spec_matches::<W>(&w);
+    let nw = ctx.tier.pick(5, 6);
+    gen::strings(&SIGMA_W, nw, shard, nshards, &mut |s| {
+        ctx.count("w_strings", 1);
+        run_one::<W>(ctx, &w, s, &cfg, "W-sigma");
+        !ctx.should_stop()
+    });
+    let pw = DocParams { max_nodes: ctx.tier.pick(4, 5), globals: vec![0x96, 0xa7, ID_VOID], exclude: vec![], unknown_subsets: true, devs: 0, payload_classes: false, big_payloads: false, noncanonical: false, width_devs: false, extras: false, all_widths: false };
+    docs::for_each_doc(ctx, &w, &pw, &mut |ctx, doc| {
+        let (bytes, lay) = ref_encode(doc);
+        ctx.count("w_docs", 1);
+        run_one::<W>(ctx, &w, &bytes, &cfg, "W-doc");
+        let bounds: Vec<usize> = lay.iter().map(|l| l.tag_start).collect();
+        docs::for_each_mutation(&bytes, &bounds, &SIGMA_W, &kinds, &mut |m, _k, _pos| {
+            run_one::<W>(ctx, &w, m, &mcfg, "W-mut");
             !ctx.should_stop()
         });
         !ctx.should_stop()
